@@ -9,10 +9,10 @@
 //!   `source_message` -> controller message to every source, `next_update` timer ->
 //!   `time_update`, usability changes -> `source_update`, drop -> `remove_source`;
 //! * `Direct` drives `steer_offset`/`steer_frequency` directly (hook a1);
-//! * `in_child_streaming` runs a closure in a forked child (the steering code calls
-//!   `std::process::exit(70)`); the clock log needed by C01 is streamed on every
-//!   step and once more from an `atexit` handler, so the parent knows what happened
-//!   before the exit.
+//! * `run_jobs_in_children` runs batches of jobs in forked children (the steering code calls
+//!   `std::process::exit(70)`); the results so far and the clock log of the job in flight are
+//!   written to the parent from an `atexit` handler through the `progress` channel of
+//!   `core::fork::in_child`, so the parent knows what happened before the exit.
 //!
 //! All time is virtual: true time is an i128 count of 2^-32 s units; the tokio clock is
 //! paused and advanced in lock-step (the filter's meddling detector reads it).
@@ -87,7 +87,6 @@ pub struct ClockState {
     /// first controller call whose result reported used sources
     pub first_used_call: Option<u64>,
     pub calls_returned: u64,
-    stream_steps: bool,
 }
 
 impl ClockState {
@@ -147,7 +146,6 @@ impl SimClock {
             call_no: 0,
             first_used_call: None,
             calls_returned: 0,
-            stream_steps: false,
         })))
     }
     pub fn st(&self) -> std::sync::MutexGuard<'_, ClockState> {
@@ -211,18 +209,8 @@ impl NtpClock for SimClock {
     }
     fn step_clock(&self, offset: NtpDuration) -> Result<NtpTimestamp, Self::Error> {
         let raw = dur_to_i64(offset);
-        let stream;
-        {
-            let mut s = self.st();
-            s.local_base += raw as i128;
-            stream = s.stream_steps;
-        }
-        let now = self.push(What::Step(raw));
-        if stream {
-            let v = self.st().c01_summary(false);
-            stream_progress(v);
-        }
-        Ok(now)
+        self.st().local_base += raw as i128;
+        Ok(self.push(What::Step(raw)))
     }
     fn disable_ntp_algorithm(&self) -> Result<(), Self::Error> {
         self.push(What::DisableNtp);
@@ -239,13 +227,24 @@ impl NtpClock for SimClock {
 }
 
 // ------------------------------------------------------------------ fork + streaming
+//
+// fork() costs tens of milliseconds in the sandbox, so a case runs a *batch* of jobs in one child;
+// only a job in which the code under test calls exit() costs another fork (the parent resumes the
+// batch after it). Results of finished jobs and the clock log of the job in flight are written to
+// the parent by an atexit handler (std::process::exit runs libc atexit handlers).
 
 struct ProgressPtr(*mut (dyn FnMut(Value) + 'static));
 // SAFETY: only ever used by the single thread of a forked child
 unsafe impl Send for ProgressPtr {}
 
+struct ExitState {
+    done: Vec<Value>,
+    cur: usize,
+    clock: Option<SimClock>,
+}
+
 static PROGRESS: Mutex<Option<ProgressPtr>> = Mutex::new(None);
-static EXIT_CLOCK: Mutex<Option<SimClock>> = Mutex::new(None);
+static EXIT_STATE: Mutex<ExitState> = Mutex::new(ExitState { done: Vec::new(), cur: 0, clock: None });
 
 fn stream_progress(v: Value) {
     if let Ok(g) = PROGRESS.try_lock() {
@@ -259,42 +258,106 @@ fn stream_progress(v: Value) {
 
 extern "C" fn on_exit() {
     // runs when the code under test calls std::process::exit(): tell the parent what was observed so far
-    let clock = match EXIT_CLOCK.try_lock() {
-        Ok(g) => g.clone(),
-        Err(_) => None,
+    let Ok(mut st) = EXIT_STATE.try_lock() else { return };
+    let summary = match st.clock.as_ref().map(|c| c.0.try_lock()) {
+        Some(Ok(s)) => s.c01_summary(true),
+        _ => Value::Null,
     };
-    if let Some(c) = clock {
-        if let Ok(s) = c.0.try_lock() {
-            let v = s.c01_summary(true);
-            drop(s);
-            stream_progress(v);
-        }
-    }
+    let v = json!({"at_exit": true, "done": std::mem::take(&mut st.done), "cur": st.cur, "summary": summary});
+    drop(st);
+    stream_progress(v);
 }
 
-/// Run `f` in a forked child. Clocks registered with `register_exit_clock` stream their step
-/// log; the last streamed value is available to the parent even if the child exits.
-pub fn in_child_streaming(f: impl FnOnce() -> Value) -> Ended {
+/// Run `f` in a forked child with the progress channel reachable from the exit handler.
+fn in_child_streaming(f: impl FnOnce() -> Value) -> Ended {
     fork::in_child(|progress| {
         // SAFETY: lifetime erasure only; the pointer is cleared before this closure returns and is
         // otherwise used only from the atexit handler of this same (single-threaded) child process.
         let p: *mut (dyn FnMut(Value) + 'static) = unsafe { std::mem::transmute(progress as *mut dyn FnMut(Value)) };
         *PROGRESS.lock().unwrap() = Some(ProgressPtr(p));
+        {
+            let mut st = EXIT_STATE.lock().unwrap();
+            st.done.clear();
+            st.clock = None;
+        }
         // SAFETY: registering a plain extern "C" function
         unsafe {
             libc::atexit(on_exit);
         }
         let v = f();
-        *EXIT_CLOCK.lock().unwrap() = None;
+        EXIT_STATE.lock().unwrap().clock = None;
         *PROGRESS.lock().unwrap() = None;
         v
     })
 }
 
-/// (child only) make this clock the one whose log is streamed on steps and at exit
+/// (child only) the clock whose log describes the job in flight
 pub fn register_exit_clock(c: &SimClock) {
-    c.st().stream_steps = true;
-    *EXIT_CLOCK.lock().unwrap() = Some(c.clone());
+    EXIT_STATE.lock().unwrap().clock = Some(c.clone());
+}
+
+pub enum JobEnd {
+    /// the job ran to completion; its result
+    Returned(Value),
+    /// the code under test stopped the process with status 70 during the job; `c01_summary` at that moment
+    Stopped(Value),
+    /// the child was lost in another way (harness problem, never a verdict)
+    Lost(String),
+}
+
+/// Run jobs `0..n` in forked children, in order; `job(k)` is executed in a child and must call
+/// `register_exit_clock` for the clock it uses. A job that ends in exit(70) is reported as `Stopped`
+/// and the remaining jobs continue in a fresh child.
+pub fn run_jobs_in_children(n: usize, job: &dyn Fn(usize) -> Value) -> Vec<JobEnd> {
+    let mut out: Vec<JobEnd> = Vec::new();
+    while out.len() < n {
+        let start = out.len();
+        let ended = in_child_streaming(|| {
+            for k in start..n {
+                {
+                    let mut st = EXIT_STATE.lock().unwrap();
+                    st.cur = k;
+                    st.clock = None;
+                }
+                let v = job(k);
+                EXIT_STATE.lock().unwrap().done.push(v);
+            }
+            let done = std::mem::take(&mut EXIT_STATE.lock().unwrap().done);
+            json!({"done": done})
+        });
+        let take_done = |v: &Value, out: &mut Vec<JobEnd>| {
+            if let Some(a) = v.get("done").and_then(|d| d.as_array()) {
+                for d in a {
+                    out.push(JobEnd::Returned(d.clone()));
+                }
+            }
+        };
+        match ended {
+            Ended::Returned(v) => {
+                take_done(&v, &mut out);
+                while out.len() < n {
+                    out.push(JobEnd::Lost("child returned fewer results than jobs".into()));
+                }
+            }
+            Ended::Exited(70, Some(v)) if v.get("at_exit").and_then(|x| x.as_bool()) == Some(true) => {
+                take_done(&v, &mut out);
+                let cur = v.get("cur").and_then(|x| x.as_u64()).unwrap_or(u64::MAX) as usize;
+                if cur != out.len() || v.get("summary").is_none_or(|s| s.is_null()) {
+                    out.push(JobEnd::Lost(format!("inconsistent exit report: cur={cur} results={}", out.len())));
+                } else {
+                    out.push(JobEnd::Stopped(v["summary"].clone()));
+                }
+            }
+            other => {
+                out.push(JobEnd::Lost(format!("child ended unexpectedly: {other:?}")));
+                while out.len() < n {
+                    out.push(JobEnd::Lost("not run: an earlier job lost the child".into()));
+                }
+            }
+        }
+    }
+    out.truncate(n);
+    out
 }
 
 // ------------------------------------------------------------------ specification of a history
@@ -749,7 +812,7 @@ impl Core {
         let ts = units_to_secs(t);
         let sp = &self.spec.sources[i];
         let s = &mut self.srcs[i];
-        let mut remote = t + secs_to_units(sp.offset) + ((t as f64) * sp.drift).round() as i128;
+        let mut remote = self.spec.local_start as i128 + t + secs_to_units(sp.offset) + ((t as f64) * sp.drift).round() as i128;
         for (at, amount) in &sp.steps {
             if ts >= *at {
                 remote += secs_to_units(*amount);
@@ -1140,3 +1203,108 @@ pub fn gen_agreeing_sources(rng: &mut Rng, n: usize, common_offset: f64, spread:
         })
         .collect()
 }
+
+// ---- frequency-stress workloads (limits of all magnitudes)
+
+pub fn gen_limits(rng: &mut Rng, a: &mut AlgorithmConfig) {
+    a.maximum_frequency_steer = match rng.below(4) {
+        0 => 495e-6,
+        1 => *rng.pick(&[1e-6, 1e-4, 0.01, 0.1, 0.3]),
+        _ => rng.log_uniform(1e-9, 0.3),
+    };
+    a.slew_maximum_frequency_offset = match rng.below(4) {
+        0 => 200e-6,
+        1 => *rng.pick(&[1e-6, 1e-3, 0.05]),
+        _ => rng.log_uniform(1e-9, 0.3),
+    };
+    a.slew_minimum_duration = match rng.below(3) {
+        0 => 8.0,
+        _ => rng.log_uniform(1e-3, 1e4),
+    };
+}
+
+pub fn gen_kernel_freq(rng: &mut Rng, max: f64) -> f64 {
+    let s = if rng.bool() { 1.0 } else { -1.0 };
+    s * match rng.below(8) {
+        0 | 1 => 0.0,
+        2 => max,
+        3 => 10.0 * max,
+        4 => 0.1,
+        5 => 1e-12,
+        6 => max * rng.f64_range(0.0, 1.0),
+        _ => max * (1.0 + 1e-12),
+    }
+}
+
+
+/// Histories that stress the frequency steering (C02; also fed to C06): limits, initial kernel frequency and
+/// hardware drift of all magnitudes, ramps, alternating offsets at short spacing, saw-tooth remote steps.
+pub fn gen_freq_stress_spec(rng: &mut Rng, max_meas: u64) -> Spec {
+    let n = rng.usize(1, 5);
+    let mut spec = Spec::basic(0, rng);
+    spec.min_agree = rng.usize(1, n.min(3));
+    spec.startup = Thr::INF;
+    spec.single = Thr::INF;
+    spec.accumulated = None;
+    gen_limits(rng, &mut spec.algo);
+    let max = spec.algo.maximum_frequency_steer;
+    spec.kernel_freq = gen_kernel_freq(rng, max);
+    spec.hw_drift = match rng.below(5) {
+        0 => 0.0,
+        1 => rng.f64_range(-1.0, 1.0) * 1e-5,
+        2 => rng.f64_range(-2.0, 2.0) * max,
+        3 => *rng.pick(&[1e-3, -1e-3, 1e-2, -1e-2]),
+        _ => rng.f64_range(-1.0, 1.0) * max * 0.9,
+    };
+    spec.algo.step_threshold = *rng.pick(&[0.01, 0.01, 1.0, 1e6]);
+    spec.algo.steer_offset_threshold = *rng.pick(&[2.0, 2.0, 0.5, 0.0]);
+    spec.algo.steer_offset_leftover = *rng.pick(&[1.0, 1.0, 0.0]);
+    spec.algo.steer_frequency_threshold = *rng.pick(&[0.0, 0.0, 1.0]);
+    let x0 = match rng.below(3) {
+        0 => 0.0,
+        1 => rng.f64_range(-0.009, 0.009),
+        _ => rng.f64_range(-1.0, 1.0) * rng.log_uniform(1e-3, 100.0),
+    };
+    spec.sources = gen_agreeing_sources(rng, n, x0, 2e-4);
+    let scenario = rng.below(5);
+    let common_drift = match rng.below(4) {
+        0 => 0.0,
+        1 => rng.f64_range(-1.0, 1.0) * 1e-4,
+        2 => rng.f64_range(-3.0, 3.0) * max,
+        _ => *rng.pick(&[1e-2, -1e-2, 1e-3, -1e-3]),
+    };
+    let poll = *rng.pick(&[0.0015, 0.01, 0.25, 1.0, 2.0, 16.0]);
+    for s in spec.sources.iter_mut() {
+        s.drift += common_drift;
+        s.poll = Poll::Fixed(poll * rng.f64_range(0.9, 1.1));
+        match scenario {
+            0 => {}
+            1 => {
+                // alternating offsets at short spacing: extreme apparent frequencies
+                s.noise_kind = 1;
+                s.noise = rng.log_uniform(1e-5, 5e-2);
+            }
+            2 => {
+                // saw-tooth: remote steps back and forth
+                let amp = rng.log_uniform(1e-3, 0.2);
+                let mut t = 20.0;
+                let mut sgn = 1.0;
+                for _ in 0..6 {
+                    s.steps.push((t, sgn * amp));
+                    sgn = -sgn;
+                    t += rng.f64_range(5.0, 60.0);
+                }
+            }
+            3 => {
+                s.poll = Poll::Desired;
+            }
+            _ => {
+                s.noise_kind = 2;
+            }
+        }
+    }
+    spec.max_meas = max_meas;
+    spec.duration = 1e7;
+    spec
+}
+
